@@ -107,6 +107,79 @@ def build_obligation(inst):
             pairs.append((got, exp))
             return pairs
         return ob
+    if kind == "made_op":
+        # funsor.make_op: the eager rule converts the operands with to_data (one shared name -> dim map), applies the
+        # python function and converts back: inputs are the union, every cell is fn of the operands' cells
+        _, ins1, ins2, arity = inst
+
+        def ob(mk):
+            import funsor
+            from funsor import Bint, Real, Tensor
+            from harness.core import result_cells
+            if arity == 2:
+                def fn(x: Real, y: Real) -> Real:
+                    return x - 2.0 * y
+            else:
+                def fn(x: Real) -> Real:
+                    return x * 3.0 - 1.0
+            op = funsor.make_op(fn)
+            X = mk.array("x", tuple(ins1.values()), "real")
+            tx = Tensor(X, OrderedDict((k, Bint[n]) for k, n in ins1.items()))
+            if arity == 2:
+                Y = mk.array("y", tuple(ins2.values()), "real")
+                ty = Tensor(Y, OrderedDict((k, Bint[n]) for k, n in ins2.items()))
+                r = op(tx, ty)
+                union = OrderedDict(list(ins1.items()) + [(k, n) for k, n in ins2.items() if k not in ins1])
+            else:
+                r = op(tx)
+                union = OrderedDict(ins1)
+            pairs = [(_b(mk, isinstance(r, Tensor) and set(r.inputs) == set(union) and r.output == Real), None)]
+            if not (isinstance(r, Tensor) and set(r.inputs) == set(union)):
+                return pairs
+            xa = X.view(np.ndarray)
+            got, exp = [], []
+            for pt in itertools.product(*(range(n) for n in union.values())):
+                env = dict(zip(union, pt))
+                xv = xa[tuple(env[k] for k in ins1)]
+                if arity == 2:
+                    yv = Y.view(np.ndarray)[tuple(env[k] for k in ins2)]
+                    exp.append(xv - 2.0 * yv)
+                else:
+                    exp.append(xv * 3.0 - 1.0)
+                got.append(result_cells(r, env)[()])
+            pairs.append((got, exp))
+            return pairs
+        return ob
+    if kind == "align_binary":
+        # a lazily aligned funsor used as an operand of a (non-commutative) binary op, on either side
+        _, sizes, perm, opname, side = inst
+
+        def ob(mk):
+            import funsor
+            import funsor.ops as ops
+            from funsor import Bint, Real, Tensor, Variable
+            from harness.core import result_cells
+            from lang import cellops as C
+            names = ["a", "b", "c"][: len(sizes)]
+            X = mk.array("x", tuple(sizes), "real")
+            S = mk.array("s", tuple(sizes), "pos" if opname in ("truediv", "pow") else "real")
+            Z = mk.array("z", (), "real")
+            t = Tensor(X, OrderedDict((n, Bint[s_]) for n, s_ in zip(names, sizes)))
+            s_t = Tensor(S, OrderedDict((n, Bint[s_]) for n, s_ in zip(names, sizes)))
+            g = (t + Variable("z", Real)).align(tuple(names[i] for i in perm))      # stays lazy: an Align term
+            op = getattr(ops, opname)
+            r = op(s_t, g) if side == "right" else op(g, s_t)
+            r = r(z=Tensor(Z))
+            xa, sa, zc = X.view(np.ndarray), S.view(np.ndarray), Z.view(np.ndarray)[()]
+            f2 = C.BINARY[opname]
+            got, exp = [], []
+            for pt in itertools.product(*(range(n) for n in sizes)):
+                env = dict(zip(names, pt))
+                gv = xa[pt] + zc
+                exp.append(f2(sa[pt], gv) if side == "right" else f2(gv, sa[pt]))
+                got.append(result_cells(r, env)[()])
+            return [(got, exp)]
+        return ob
     raise ValueError(kind)
 
 
@@ -335,6 +408,16 @@ def instances(tier, seed):
                             if how in ("lazy_binary", "contraction") and (dtype != "real" or ev):
                                 continue
                             out.append(("align", sizes, ev, dtype, perm, how))
+    # funsor.make_op: names introduced by different operands (disjoint, overlapping, nested, equal and unequal sizes)
+    for ins1, ins2 in [(OrderedDict(i=2, j=3), OrderedDict(k=3)), (OrderedDict(i=2), OrderedDict(j=2)), (OrderedDict(i=2, j=3), OrderedDict(j=3, k=2)),
+                       (OrderedDict(i=2, j=2), OrderedDict(k=2)), (OrderedDict(i=2), OrderedDict(i=2)), (OrderedDict(), OrderedDict(k=2)),
+                       (OrderedDict(i=3), OrderedDict(j=1, k=3)), (OrderedDict(j=2, i=2), OrderedDict(i=2, j=2)), (OrderedDict(i=2, j=2, k=2), OrderedDict(l=2, k=2))]:
+        out.append(("made_op", ins1, ins2, 2))
+    out.append(("made_op", OrderedDict(i=2, j=3), OrderedDict(), 1))
+    for sizes, perm in [((2, 3), (1, 0)), ((2, 2), (1, 0)), ((2, 3, 2), (2, 0, 1)), ((2,), (0,))]:
+        for opname in ("sub", "truediv", "add", "lt", "pow") if tier != "quick" else ("sub", "truediv", "add"):
+            for side in ("left", "right"):
+                out.append(("align_binary", sizes, perm, opname, side))
     # Engine B: bookkeeping with unbounded symbolic sizes
     for rank, event_rank in [(1, 0), (2, 0), (2, 1), (3, 1), (3, 0), (4, 1), (4, 2)] + ([(5, 1), (5, 2)] if tier != "quick" else []):
         batch = rank - event_rank
